@@ -7,6 +7,14 @@ BASE_NOTE = ("Trusted: Coq 8.16.1 kernel (vm_compute for finite sweeps, no nativ
              "(Print Assumptions per theorem is checked on every run), tools/py2v.py translator, ExtrOcamlBasic extraction + "
              "ocaml/driver.ml, the Python correspondence harness; CPython/numpy behaviour is modelled, not verified.")
 CLAIMED = {
+ "C08": dict(
+   text="Theorems: any well-formed (E)VLR list is read back equal and in order (induction over the list; user id and description are fixed-width NUL-padded "
+        "fields - the record-header layouts extracted from VLRList.write_to/read_from equal the 54/60-byte specification layouts), an oversize VLR payload is refused; "
+        "the known-type dispatch table dumped from the running module selects, for every user id and every 16-bit record id, the class the specification names; for "
+        "each known type (classification lookup, extra bytes, waveform descriptor, GeoKey directory, GeoDouble, GeoAscii, WKT x2) parse-after-serialise is stable, byte "
+        "identity holds on the normal forms, a failing parser keeps the raw record; read-write-read of parsed lists is stable. Correspondence through real files.",
+   design="5/C08", technique="Coq proof: list codec round trip by induction, per-type parse/serialise algebra, complete sweep of the dispatch table; real files vs extracted model",
+   note=BASE_NOTE + " 'decodable' is modelled as all bytes < 128; header-owned LASF_Spec/4 and writer-popped LasZip records are exercised as EVLRs / through VLRList directly."),
  "C10": dict(
    text="Theorems: the sub-field fast-path comparisons (<, <=, >, >= on the masked un-shifted byte against the shifted constant) equal numpy's comparison of "
         "the field values for EVERY integer constant (any sign, magnitude, numpy integer width) - byte sweep over the generated masks plus monotonicity of "
